@@ -570,6 +570,7 @@ def run(fx, tier):
     # a connect attempt that completes after cancel() must not install its stream into the cancelled service (shared with C10)
     from c10 import install_only_when_open_rule
     install_only_when_open_rule(fx, v, 'C05')
+    rule_batch_completion(fx, v)
     v.assumptions = [
         'Boost.Asio: an initiation invokes its handler exactly once and never inline; post/defer never run inline; '
         'parallel_group(wait_for_one) cancels the losing operation',
@@ -583,3 +584,120 @@ def run(fx, tier):
         'edges, post/defer/async_* are boundaries); cancel() drains: type-driven enumeration of handler-parking '
         'members vs drains reachable from client_service::cancel(). Not decided: that the io_context actually runs '
         'out of work, and Asio-internal behaviour.')
+
+
+def rule_batch_completion(fx, v, prop='C05'):
+    """F14: async_sender::operator() reports a finished write to every request of the batch in a loop.  A request's completion
+    runs user code inline (dispatch), and that code may call cancel(), which drains the reply registry and the send queue - but
+    not the batch being walked.  A request that is then still told "success" registers its reply waiter AFTER the drain and is
+    never completed.  So inside that loop: every path from the top of the body to write_req::complete on which the incoming
+    error is not known to be set consults is_open(), and the edge on which is_open() is false does not hand on the incoming
+    error (it hands on operation_aborted)."""
+    from acks import ec_arg_class
+    v.rule('R-DRAIN-B', 'the write-completion loop re-examines is_open() for every request it reports success to (a handler run earlier in the loop may have cancelled the client)')
+    n = 0
+    for f in fx.functions(cls='async_sender', name='operator()'):
+        if f.lam:
+            continue
+        heads = [b for b, blk in f.blocks.items() if blk.term and blk.term.get('cls') in ('CXXForRangeStmt', 'ForStmt', 'WhileStmt')]
+        for h in heads:
+            body0 = f.blocks[h].succ[0]
+            if body0 is None:
+                continue
+            # loop blocks: reachable from body0 without passing h, and from which h is reachable
+            fwd, st = set(), [body0]
+            while st:
+                b = st.pop()
+                if b in fwd or b == h:
+                    continue
+                fwd.add(b)
+                st.extend(s_ for s_ in f.succs(b) if s_ is not None)
+            body = {b for b in fwd if _reaches(f, b, h)}
+            comp = [(b, i) for b in body for i, x in enumerate(f.blocks[b].elems)
+                    if isinstance(f.resolve(x), dict) and f.resolve(x).get('k') == 'call' and callee_name(f.resolve(x)) == 'complete'
+                    and callee_cls(f.resolve(x)) == 'write_req']
+            if not comp:
+                continue
+            n += 1
+            v.saw(f)
+            bad = None
+            n_paths = 0
+
+            def truth_of(b, s_, what):
+                """truth value that edge b->s_ gives to `what` ('open' | 'ec'), or None"""
+                blk = f.blocks[b]
+                if len(blk.succ) != 2 or not blk.elems or blk.succ[0] == blk.succ[1]:
+                    return None
+                x = f.resolve(blk.elems[-1])
+                pol = (s_ == blk.succ[0])
+                for _ in range(4):
+                    if isinstance(x, dict) and x.get('k') == 'un' and x.get('op') == '!':
+                        x, pol = f.resolve(x.get('e')), not pol
+                    elif isinstance(x, dict) and x.get('k') in ('icast', 'cast'):
+                        x = f.resolve(x.get('e'))
+                    else:
+                        break
+                if not isinstance(x, dict) or x.get('k') != 'call':
+                    return None
+                if what == 'open' and callee_name(x) == 'is_open':
+                    return pol
+                if what == 'ec' and callee_name(x) == 'operator bool' and isinstance(f.resolve(x.get('obj')), dict) \
+                        and f.resolve(x['obj']).get('tcls') == 'error_code':
+                    return pol
+                return None
+
+            def walk(b, path, open_seen, ec_set):
+                nonlocal bad, n_paths
+                for (cb, ci) in comp:
+                    if cb == b:
+                        n_paths += 1
+                        call = f.blocks[cb].elems[ci]
+                        arg = call['args'][0] if call.get('args') else None
+                        for _ in range(3):                 # one level at a time: the arms of a ?: must stay element references
+                            if isinstance(arg, dict) and arg.get('k') == 'elem':
+                                arg = f.elem(arg['b'], arg['i'])
+                            elif isinstance(arg, dict) and arg.get('k') in ('ctor',) and arg.get('copy') and arg.get('args'):
+                                arg = arg['args'][0]
+                            else:
+                                break
+                        if isinstance(arg, dict) and arg.get('k') != 'cond':
+                            arg = f.resolve(arg)
+                        # which value is handed on?  a ?: picks the arm whose block is on the path
+                        handed = arg
+                        if isinstance(arg, dict) and arg.get('k') == 'cond':
+                            for arm in ('a', 'b'):
+                                e = arg.get(arm)
+                                if isinstance(e, dict) and e.get('k') == 'elem' and e['b'] in path:
+                                    handed = f.resolve(e)
+                        is_incoming = isinstance(handed, dict) and contains(handed, lambda m: m.get('k') == 'ref' and m.get('dk') == 'param' and m.get('tcls') == 'error_code') \
+                            and not contains(handed, lambda m: m.get('k') == 'ref' and m.get('dk') == 'enum')
+                        if not ec_set and open_seen is None and is_incoming:
+                            bad = 'a path through the loop body hands the incoming error (possibly success) to the request without consulting is_open()'
+                        if open_seen is False and is_incoming:
+                            bad = 'on the edge where is_open() is false the request is still handed the incoming error'
+                        return
+                for s_ in f.succs(b):
+                    if s_ is None or s_ not in body or s_ in path:
+                        continue
+                    o = truth_of(b, s_, 'open')
+                    e = truth_of(b, s_, 'ec')
+                    walk(s_, path | {s_}, o if o is not None else open_seen, ec_set or (e is True))
+            walk(body0, {body0}, None, False)
+            v.check(bad is None and n_paths > 0, 'R-DRAIN-B', 'async_sender::operator()%s:completion-loop [%s]' % (f.inst()[:25], f.tu),
+                    'every request of a written batch is told success only while the client is still open (%d body paths)' % n_paths
+                    if bad is None else bad, key=prop + ':R-DRAIN-B:async_sender:completion-loop', where=f.file)
+    if n == 0 and not v.violations:
+        raise AnalysisBroken('async_sender::operator(): completion loop not found')
+
+
+def _reaches(f, a, target):
+    seen, st = set(), [a]
+    while st:
+        b = st.pop()
+        if b == target:
+            return True
+        if b in seen:
+            continue
+        seen.add(b)
+        st.extend(s_ for s_ in f.succs(b) if s_ is not None)
+    return False
